@@ -44,8 +44,9 @@ type perIPConn struct {
 
 	perIPConnCounter *perIPConnCounter
 
-	ip   uint32
-	lock sync.Mutex
+	ip     uint32
+	lock   sync.Mutex
+	closed bool
 }
 
 type perIPTLSConn struct {
@@ -53,8 +54,9 @@ type perIPTLSConn struct {
 
 	perIPConnCounter *perIPConnCounter
 
-	ip   uint32
-	lock sync.Mutex
+	ip     uint32
+	lock   sync.Mutex
+	closed bool
 }
 
 func acquirePerIPConn(conn net.Conn, ip uint32, counter *perIPConnCounter) net.Conn {
@@ -70,6 +72,7 @@ func acquirePerIPConn(conn net.Conn, ip uint32, counter *perIPConnCounter) net.C
 		c := v.(*perIPTLSConn) //nolint:forcetypeassert
 		c.Conn = tlsConn
 		c.ip = ip
+		c.closed = false
 		return c
 	}
 
@@ -84,38 +87,46 @@ func acquirePerIPConn(conn net.Conn, ip uint32, counter *perIPConnCounter) net.C
 	c := v.(*perIPConn) //nolint:forcetypeassert
 	c.Conn = conn
 	c.ip = ip
+	c.closed = false
 	return c
 }
 
+// Close closes the underlying connection and releases its per-IP slot once.
+//
+// The connection may be closed from another goroutine (Shutdown closes idle
+// connections) while the goroutine serving it still holds c and goes on to
+// use it. So c keeps its underlying connection, whose methods fail cleanly
+// after Close, and is not returned to the pool, where it could be handed to a
+// new connection while the old goroutine still writes to it.
 func (c *perIPConn) Close() error {
 	c.lock.Lock()
-	cc := c.Conn
-	c.Conn = nil
+	closed := c.closed
+	c.closed = true
 	c.lock.Unlock()
 
-	if cc == nil {
+	if closed {
 		return nil
 	}
 
-	err := cc.Close()
+	err := c.Conn.Close()
 	c.perIPConnCounter.Unregister(c.ip)
-	c.perIPConnCounter.perIPConnPool.Put(c)
 	return err
 }
 
+// Close closes the underlying connection and releases its per-IP slot once.
+// See perIPConn.Close.
 func (c *perIPTLSConn) Close() error {
 	c.lock.Lock()
-	cc := c.Conn
-	c.Conn = nil
+	closed := c.closed
+	c.closed = true
 	c.lock.Unlock()
 
-	if cc == nil {
+	if closed {
 		return nil
 	}
 
-	err := cc.Close()
+	err := c.Conn.Close()
 	c.perIPConnCounter.Unregister(c.ip)
-	c.perIPConnCounter.perIPTLSConnPool.Put(c)
 	return err
 }
 
